@@ -1,4 +1,5 @@
 import TonicModel.Lemmas.FramingWire
+import TonicModel.Lemmas.FramingEncAfter
 import TonicModel.Lemmas.Interceptor
 import TonicModel.Model.Interceptor
 import TonicModel.Model.RecoverError
@@ -6,7 +7,8 @@ import TonicModel.Model.GrpcWire
 import TonicModel.Spec.GrpcResponse
 /-
 C03 — Requests and responses on the wire are spec-conformant gRPC.
-Body part: judged by `Spec.Framing.split`, a batch parser that shares nothing with the model.
+Body part: judged by `Spec.Framing.split`, a batch parser that imports nothing of the model (Spec/Framing.lean
+imports `Basic.Bytes` only and does its own big-endian arithmetic; the type `Bytes` is all they have in common).
 -/
 namespace C03
 open Framing Spec.Framing
@@ -94,8 +96,8 @@ theorem C03_flag_iff_compressed (cd : Codec α) (cfg : EncCfg) (ms : List α) :
 
 /-- **A client request body carries no trailers — ever**: in whatever state, for every source
 schedule and however often it is polled (also past an error or its end), a client-role body never
-yields a trailers frame.  (`C03_client_body_wellformed` below leaves the polls after an error
-unconstrained; this closes that gap.) -/
+yields a trailers frame.  (`C03_client_body_wellformed` below says what the polls after an error are: a
+fresh body's run over the rest of the source — which, by this theorem, contains no trailers either.) -/
 theorem C03_client_body_never_trailers (cd : Codec α) (cfg : EncCfg) (hs : cfg.server = false) (n : Nat) :
     ∀ (b : BodySt) (evs : List (SrcEv α)) (st : St), FrameOut.trailers st ∉ Enc.run cd cfg n b evs := by
   have step : ∀ (b : BodySt) (evs : List (SrcEv α)) (st : St),
@@ -113,13 +115,17 @@ theorem C03_client_body_never_trailers (cd : Codec α) (cfg : EncCfg) (hs : cfg.
     exact ⟨fun h => step b evs st h.symm, ih _ _ st⟩
 
 /-- **A client request body** delivers whole frames of the messages before
-the first failure, and then ends or fails. -/
+the first failure, and then ends (`None` for ever) or fails with that failure's status as its FIRST error
+(`pre` holds `Pending`s and data only).  A body polled again after the error — hyper does not do that — resumes
+as a fresh body over the rest of the source (`rest`, a suffix of `evs`): the tail is stated, not left open. -/
 theorem C03_client_body_wellformed (cd : Codec α) (cfg : EncCfg) (hs : cfg.server = false)
     (evs : List (SrcEv α)) (n : Nat) (hn : evs.length + 1 < n) :
     ∃ pre, (∀ o ∈ pre, o = .pending ∨ ∃ d, o = .data d) ∧
       Spec.Framing.split (dataConcat pre) = (expectedFrames cd cfg (okPrefix cd cfg evs), []) ∧
-      ((∃ st post, Enc.run cd cfg n Enc.init evs = pre ++ .err st :: post) ∨
-       Enc.run cd cfg n Enc.init evs = pre ++ List.replicate (n - pre.length) .none) := by
+      ((∃ st done rest, finalSt cd cfg evs = some st ∧ evs = done ++ rest ∧
+          Enc.run cd cfg n Enc.init evs = pre ++ .err st :: Enc.run cd cfg (n - pre.length - 1) Enc.init rest) ∨
+       (finalSt cd cfg evs = none ∧
+          Enc.run cd cfg n Enc.init evs = pre ++ List.replicate (n - pre.length) .none)) := by
   obtain ⟨pre, hgood, hdata, _, hrun⟩ := run_client cd cfg hs n none evs (by simp; omega)
   refine ⟨pre, ?_, ?_, ?_⟩
   · intro o ho
@@ -133,8 +139,13 @@ theorem C03_client_body_wellformed (cd : Codec α) (cfg : EncCfg) (hs : cfg.serv
     obtain ⟨m, hm, rfl⟩ := hfp
     exact payload_lt_of_encodable cd cfg m (okPrefix_encodable cd cfg evs m hm)
   · cases hf : owedSt cd cfg none evs with
-    | some st => rw [hf] at hrun; obtain ⟨post, hp⟩ := hrun; exact Or.inl ⟨st, post, by simpa [Enc.init] using hp⟩
-    | none => rw [hf] at hrun; exact Or.inr (by simpa [Enc.init] using hrun)
+    | some st =>
+      rw [hf] at hrun
+      obtain ⟨post, hp⟩ := hrun
+      obtain ⟨done, rest, hev, hpost⟩ :=
+        run_client_err_resumes cd cfg hs n ⟨⟨[], none⟩, false⟩ evs rfl rfl pre post st hp
+      exact Or.inl ⟨st, done, rest, by simpa [owedSt] using hf, hev, by rw [← hpost]; simpa [Enc.init] using hp⟩
+    | none => rw [hf] at hrun; exact Or.inr ⟨by simpa [owedSt] using hf, by simpa [Enc.init] using hrun⟩
 
 
 /-- **`is_end_stream()` is true only after the trailers frame (server) and never for a client
@@ -153,18 +164,59 @@ theorem C03_end_stream_only_after_trailers (cd : Codec α) (cfg : EncCfg) (n : N
 /-- `size_hint()` is sound in every state: its lower bound is 0 and it claims no upper bound. (Transcription lemma: it holds by unfolding the model's definition, so it pins the model's shape for the correspondence run — its assurance about tonic is the tie, not this proof.) -/
 theorem C03_size_hint_sound (b : BodySt) : Enc.sizeHint b = (0, none) := rfl
 
-/-- **An `Encoder::encode` failure at any position** (outcome "encode failure" of the property):
-if the encoder fails on a message that follows any number of `Pending`s and encodable messages,
-nothing of that message is on the wire — the body carries exactly the frames of the messages
-before it (`C03_server_body_wellformed` / `C03_client_body_wellformed` with this `okPrefix`) —
-and the status is INTERNAL. -/
+/-- **An `Encoder::encode` failure at any position** (outcome "encode failure" of the property), at the level
+of the polled body (`Enc.run`): if the encoder fails on a message that follows any number of `Pending`s and
+encodable messages, then — whatever follows it in the source — the polls yield `Pending`s and data chunks whose
+concatenation the independent splitter reads as exactly one frame per message BEFORE the failing one, nothing
+left over (nothing of the failing message is on the wire), and then: a server body yields exactly one
+trailers frame with INTERNAL (class `encode`) and `None` for ever; a client body yields that status as an
+error.  (What a client body would yield if it were polled again after that error is not claimed — hyper does
+not poll a body again after an error; `C03_client_body_wellformed` / `C06_no_collateral_loss_client` say what
+the model does then, `C06_client_polled_after_error_continues` is an instance.)  The ghost functions
+`okPrefix` / `finalSt`, about which the earlier form of this theorem spoke alone, are the last two conjuncts. -/
 theorem C03_encode_failure_any_position (cd : Codec α) (cfg : EncCfg) (pre rest : List (SrcEv α)) (m : α)
-    (hpre : AllOk cd cfg pre) (hm : cd.serFail m = true) :
+    (hpre : AllOk cd cfg pre) (hm : cd.serFail m = true)
+    (n : Nat) (hn : (pre ++ .item m :: rest).length + 1 < n) :
+    (∃ out, (∀ o ∈ out, o = .pending ∨ ∃ d, o = .data d) ∧
+      Spec.Framing.split (dataConcat out) = (expectedFrames cd cfg (itemsOfEvs pre), []) ∧
+      (cfg.server = true → ∃ k, Enc.run cd cfg n Enc.init (pre ++ .item m :: rest)
+          = out ++ [.trailers ⟨13, .encode⟩] ++ List.replicate k .none) ∧
+      (cfg.server = false → ∃ post, Enc.run cd cfg n Enc.init (pre ++ .item m :: rest)
+          = out ++ .err ⟨13, .encode⟩ :: post)) ∧
     okPrefix cd cfg (pre ++ .item m :: rest) = itemsOfEvs pre ∧
     finalSt cd cfg (pre ++ .item m :: rest) = some ⟨13, .encode⟩ := by
   obtain ⟨h1, h2⟩ := okPrefix_append cd cfg pre (.item m :: rest) hpre
-  rw [h1, h2]
-  simp [okPrefix, finalSt, serFail_encodeErr cd cfg m hm]
+  have hok : okPrefix cd cfg (pre ++ .item m :: rest) = itemsOfEvs pre := by
+    rw [h1]; simp [okPrefix, serFail_encodeErr cd cfg m hm]
+  have hfin : finalSt cd cfg (pre ++ .item m :: rest) = some ⟨13, .encode⟩ := by
+    rw [h2]; simp [finalSt, serFail_encodeErr cd cfg m hm]
+  refine ⟨?_, hok, hfin⟩
+  have hsplit : ∀ out, dataConcat out = owedData cd cfg none (pre ++ .item m :: rest) →
+      Spec.Framing.split (dataConcat out) = (expectedFrames cd cfg (itemsOfEvs pre), []) := by
+    intro out hdata
+    rw [hdata, owedData, framesOf_eq_spec, ← hok]
+    apply split_frames
+    intro fp hfp
+    simp only [List.mem_map] at hfp
+    obtain ⟨x, hx, rfl⟩ := hfp
+    exact payload_lt_of_encodable cd cfg x (okPrefix_encodable cd cfg _ x hx)
+  have hshape : ∀ out : List FrameOut, (∀ o ∈ out, GoodChunk cd cfg o) →
+      ∀ o ∈ out, o = .pending ∨ ∃ d, o = .data d := by
+    intro out hgood o ho
+    rcases hgood o ho with h | ⟨d, h, _⟩
+    · exact Or.inl h
+    · exact Or.inr ⟨d, h⟩
+  cases hs : cfg.server with
+  | true =>
+    obtain ⟨out, hrun, hgood, hdata, _⟩ := run_server cd cfg hs n none (pre ++ .item m :: rest) (by simp at hn ⊢; omega)
+    refine ⟨out, hshape out hgood, hsplit out hdata, fun _ => ⟨n - out.length - 1, ?_⟩, fun h => by simp at h⟩
+    simpa [Enc.init, owedSt, hfin] using hrun
+  | false =>
+    obtain ⟨out, hgood, hdata, _, hrun⟩ := run_client cd cfg hs n none (pre ++ .item m :: rest) (by simp at hn ⊢; omega)
+    refine ⟨out, hshape out hgood, hsplit out hdata, fun h => by simp at h, fun _ => ?_⟩
+    simp only [owedSt, hfin] at hrun
+    obtain ⟨post, hp⟩ := hrun
+    exact ⟨post, by simpa [Enc.init] using hp⟩
 
 /-! ### Header clauses (request line, trailers-only response)
 
@@ -177,7 +229,10 @@ open HMapLite HttpLite
 /-- **Every call is an HTTP/2 POST with `content-type: application/grpc` and `te: trailers`** —
 exactly one value each, whatever the caller's metadata contains (a forged `te` or
 `content-type` cannot survive) — to the method path joined onto the origin's path, with the
-body untouched. -/
+body untouched.  (The proof obligation is in the two `getAll` conjuncts — exactly one value each over
+ARBITRARY caller metadata; the conjuncts for method, version, body and URI restate the literals of the model
+function `prepareRequest` and hold by unfolding it: for those four the assurance about tonic is the
+correspondence — C12's `prepare_request` cases and C03's oracle-only `req` / `wreq` cases.) -/
 theorem C03_request_line {β : Type} (originPrefix originPath path : Bytes) (q : Bool)
     (t : Interceptor.TRequest β) :
     let r := Interceptor.prepareRequest originPrefix originPath q path t
@@ -446,6 +501,22 @@ example : Enc.run idCodec { comp := none, yieldThr := 0, maxSize := none, server
       [.item [1, 2], .err ⟨5, .user⟩, .item [3]]
     = [.data [0, 0, 0, 0, 2, 1, 2], .trailers ⟨5, .user⟩, .none, .none, .none] := by decide
 
+/- Non-vacuity of `C03_encode_failure_any_position`: an encoder failing on the third source event, with a
+`Pending` and an encodable message before it and a message after it; both roles. -/
+def failCodec : Codec Bytes := { idCodec with serFail := fun b => b.head? == some 255 }
+
+example : AllOk failCodec { comp := none, yieldThr := 0, maxSize := none, server := true } [.item [1], .pending] ∧
+    failCodec.serFail [255] = true := by
+  refine ⟨?_, by decide⟩
+  simp only [AllOk, and_true]
+  decide
+example : Enc.run failCodec { comp := none, yieldThr := 0, maxSize := none, server := true } 5 Enc.init
+      [.item [1], .pending, .item [255], .item [2]]
+    = [.data [0, 0, 0, 0, 1, 1], .pending, .trailers ⟨13, .encode⟩, .none, .none] := by decide
+example : (Enc.run failCodec { comp := none, yieldThr := 0, maxSize := none, server := false } 5 Enc.init
+      [.item [1], .pending, .item [255], .item [2]]).take 3
+    = [.data [0, 0, 0, 0, 1, 1], .pending, .err ⟨13, .encode⟩] := by decide
+
 /- Non-vacuity of the producer theorems: a wrapped status with forged metadata is found and
 answered; a chain of unknown errors is not. -/
 open HMapLite HttpLite RecoverError in
@@ -460,7 +531,9 @@ end C03
 
 /-! ### Dimension audit (builder aC03): the head of a NORMAL response, and `client::Grpc` as a value with a
 history.  Correspondence: case kinds `wresp` (handler metadata `HM` with reserved names, all four entry points)
-and `wreq` (`nth = 2`, `clone = 1`) of `harness/src/c03_wire.rs`. -/
+and `wreq` (`nth = 2`, `clone = 1`) of `harness/src/c03_wire.rs`.  Both kinds are ORACLE-ONLY: `Model/GrpcWire.lean`
+is imported by this file alone, it predicts no case.  `C03_normal_response_head` is a genuine fact about that
+model (sanitising + insertion over arbitrary metadata); the two history theorems are transcription lemmas. -/
 namespace C03
 section Wire
 open HMapLite HttpLite Interceptor GrpcWire
@@ -507,10 +580,16 @@ theorem C03_normal_response_head_unsanitized_fails :
       (mapResponseOkUnsanitized [(str "grpc-status", (str "0", false))] [] none ()).headers ≠ [] := by
   decide
 
-/-- **A `client::Grpc` value has no memory**: after EVERY history of calls the value is what it was, a clone
-of it is the same value, and the request of the next call — on the value or on a clone of it — is
-`prepare_request` of the configuration, this call's path and this call's request alone (so `C03_request_line`
-holds of every call of every history, not only of the first). -/
+/-- Transcription lemma: `GrpcWire.callOnce` returns its configuration argument unchanged BY DEFINITION, `run` is the
+fold over it and `clone` is structure eta, so this statement holds for any request builder whatsoever put in
+the place of `prepareRequest` — "the value has no memory" is built into the model, not proved of tonic.  What
+it records: in the model, after every history of calls the value is what it was, a clone of it is the same
+value, and the request of the next call — on the value or on a clone — is `prepare_request` of the
+configuration, this call's path and this call's request alone (so `C03_request_line` applies to every call of a
+history of THE MODEL).  That the real `client::Grpc` keeps nothing between calls is carried by the
+correspondence run alone: the oracle-only case kind `wreq` with `nth = 2` / `clone = 1`
+(`harness/src/c03_wire.rs`, verdict `Driver/C03Wire.lean`; `Model/GrpcWire.lean` is not the prediction of any
+case kind — no driver imports it). -/
 theorem C03_request_line_every_call {β : Type} (c : Cfg) (hist : List (Bytes × TRequest β))
     (path : Bytes) (t : TRequest β) :
     (run c hist).1 = c ∧ clone (run c hist).1 = c ∧
@@ -523,15 +602,20 @@ theorem C03_request_line_every_call {β : Type} (c : Cfg) (hist : List (Bytes ×
   · rw [h]; rfl
   · rw [h]; rfl
 
-/-- …and every request a history sends is the one `prepare_request` builds for that call alone. -/
+/-- Transcription lemma: same remark as `C03_request_line_every_call` — `run` threads the unchanged configuration
+through `callOnce` by definition, so "every request a history sends is the one `prepare_request` builds for
+that call alone" holds for any request builder; the assurance about the real value is the `wreq` (`nth = 2`,
+`clone = 1`) oracle cases. -/
 theorem C03_history_requests {β : Type} (c : Cfg) (hist : List (Bytes × TRequest β)) :
     (run c hist).2 = hist.map (fun pt => prepareRequest c.originPrefix c.originPath c.originHasQuery pt.1 pt.2) := by
   induction hist with
   | nil => rfl
   | cons x rest ih => obtain ⟨p, t'⟩ := x; simp [run, callOnce, ih]
 
-/-- The slip of mutant aC03-3 (the value caches the first URI it built): the second call of a history goes to
-the FIRST call's path (corpus: `wreq … <nth = 2> …`, first call `/first.Svc/Other`). -/
+/-- The slip of mutant aC03-3 (the value caches the first URI it built), as a second hand-written model: there the
+second call of a history goes to the FIRST call's path (corpus: `wreq … <nth = 2> …`, first call
+`/first.Svc/Other`).  This shows that the request-line clause would notice such a cache (the clause is not
+vacuous over histories); it does not show that tonic has none — that is the `wreq` correspondence. -/
 theorem C03_request_line_fails_with_cached_uri :
     let t : TRequest Unit := { metadata := [], message := (), extensions := [] }
     let s0 : CachedSt := { cfg := { originPrefix := str "http://h", originPath := [], originHasQuery := false }, uri := none }
